@@ -21,7 +21,7 @@ func clInsertPublish(c *Ctx) {
 	fi := p.Info(fn)
 	dcas := p.Func("skiplist", "Node", "dcasNext")
 	findPath := p.Func("skiplist", "Skiplist", "findPath")
-	x := ssa.Value(fn.Params[1])
+	x := strip(fn.Params[1])
 	var level0 *ssa.Call
 	var upper []ssa.Instruction
 	for _, d := range p.CallSites(fn, dcas) {
@@ -133,13 +133,13 @@ func clMarkCAS(c *Ctx) {
 	for _, d := range p.CallSites(sd, dcas) {
 		a := callOf(d).Args
 		tb, okT := constBool(a[5])
-		c.Check(strip(a[0]) == ssa.Value(sd.Params[1]) && strip(a[2]) == strip(a[3]) && isFalseConst(a[4]) && okT && tb, sd, d,
+		c.Check(strip(a[0]) == strip(sd.Params[1]) && strip(a[2]) == strip(a[3]) && isFalseConst(a[4]) && okT && tb, sd, d,
 			"mark CAS keeps the successor and only sets the mark", "marking a node changes its successor (or expects a marked link): concurrent inserts behind the node are lost or the mark can be applied twice")
 	}
 	for _, d := range p.CallSites(hd, dcas) {
 		a := callOf(d).Args
-		prev, curr, next := ssa.Value(hd.Params[2]), ssa.Value(hd.Params[3]), ssa.Value(hd.Params[4])
-		c.Check(strip(a[0]) == prev && strip(a[1]) == ssa.Value(hd.Params[1]) && strip(a[2]) == curr && strip(a[3]) == next && isFalseConst(a[4]) && isFalseConst(a[5]), hd, d,
+		prev, curr, next := strip(hd.Params[2]), strip(hd.Params[3]), strip(hd.Params[4])
+		c.Check(strip(a[0]) == prev && strip(a[1]) == strip(hd.Params[1]) && strip(a[2]) == curr && strip(a[3]) == next && isFalseConst(a[4]) && isFalseConst(a[5]), hd, d,
 			"unlink CAS swings prev from the marked node to its successor, unmarked", "helpDelete unlinks a wrong node or installs a marked link into a live predecessor")
 	}
 	if len(p.CallSites(sd, dcas)) != 1 || len(p.CallSites(hd, dcas)) != 1 {
@@ -350,7 +350,7 @@ func clFindPathHelps(c *Ctx) {
 	c.Check(live, fn, cmp, "only unmarked nodes are compared with the search key", "a node marked deleted is compared and can become predecessor/successor of the path: inserts link behind a dead node and are lost, lookups return deleted items")
 	// the compared node is the one whose mark was tested: compare(cmp, curr.Item(), itm)
 	it, ok := strip(callOf(cmp).Args[1]).(*ssa.Call)
-	c.Check(ok && p.CallsAny(it, nodeItem) && strip(callOf(cmp).Args[2]) == ssa.Value(fn.Params[1]), fn, cmp, "comparison is compare(cmp, current.Item(), searched item)", "operands of the search comparison are swapped: the descent goes the wrong way")
+	c.Check(ok && p.CallsAny(it, nodeItem) && strip(callOf(cmp).Args[2]) == strip(fn.Params[1]), fn, cmp, "comparison is compare(cmp, current.Item(), searched item)", "operands of the search comparison are swapped: the descent goes the wrong way")
 	// path buffers recorded under the same guard
 	n := 0
 	for _, in := range fi.Instrs {
@@ -415,7 +415,7 @@ func clLevelGrowth(c *Ctx) {
 	fLevel := p.Field("skiplist", "Skiplist", "level")
 	nl := p.Func("skiplist", "Skiplist", "NewLevel")
 	for _, w := range p.fieldWrites(fLevel) {
-		c.Check(w.kind == "CAS" && w.fn == nl, w.fn, w.in, "Skiplist.level is raised only by the CAS in NewLevel", "the list height is written outside NewLevel / without CAS: concurrent inserts can lower it, hiding upper levels from searches")
+		c.Check(w.kind == "CAS" && p.sameRoot(w.fn, nl), w.fn, w.in, "Skiplist.level is raised only by the CAS in NewLevel", "the list height is written outside NewLevel / without CAS: concurrent inserts can lower it, hiding upper levels from searches")
 	}
 	maxLevel, _ := constantInt64(p.Const("skiplist", "MaxLevel"))
 	var bad []string
